@@ -268,9 +268,13 @@ def gen_case(rnd, ctx, maxlen):
     ctx.count("property-redeclared-in-subclass:%s" % redecl)
     kw = rnd.random() < 0.3
     ctx.count("constructed-with-kwargs:%s" % kw)
+    # the root's construction (traits_init) touches its container defaults, which are then filled in place
+    touch = not kw and not sub and not redecl and rnd.random() < 0.15
+    ctx.count("construction-touches-defaults:%s" % touch)
     afterreset = ar and any(o[0] == "Reset" for o in ops)
     ctx.count("family-afterreset:%s" % afterreset)
-    return dict(prop=pname, cached=cached, n=n, init=init, ops=ops, kwargs=kw, sub=sub, redecl=redecl, afterreset=afterreset)
+    return dict(prop=pname, cached=cached, n=n, init=init, ops=ops, kwargs=kw, sub=sub, redecl=redecl, afterreset=afterreset,
+                touch=touch)
 
 
 def corpus():
@@ -384,6 +388,22 @@ def corpus():
     cs.append(dict(prop="maybe", cached=True, n=2, init=dup,
                    ops=[["Set", 0, "value", 2], ["Read"], ["Read"], ["Read"], ["Listen", "observe"], ["Set", 0, "value", 3], ["Read"],
                         ["Read"], ["Set", 0, "value", 4], ["Read"], ["Read"]]))
+    # seventh wave: container defaults first touched DURING construction (traits_init) and filled in place
+    for cached in (True, False):
+        for pn, mut in (("kids", ["Append", 0, "kids", 2]), ("dict", ["DSet", 0, "m", "kc", 2]), ("set", ["SAdd", 0, "s", 2]),
+                        ("nums", ["Append", 0, "nums", 3]), ("multi", ["Append", 0, "nums", 3])):
+            cs.append(dict(prop=pn, cached=cached, n=3, init=tri, touch=True,
+                           ops=[["Read"], ["Listen", "observe"], mut, ["Read"], ["Set", 1, "value", 4], ["Read"],
+                                ["Set", 2, "value", 1], ["Read"], ["Read"]]))
+    # `child.*`: every trait of the child, its computed (Property) trait included
+    star = [{"value": 1, "child": 1, "kids": [], "m": [], "s": [], "nums": []},
+            {"value": 2, "child": None, "kids": [2], "m": [], "s": [], "nums": []},
+            {"value": 5, "child": None, "kids": [], "m": [], "s": [], "nums": []}]
+    for cached in (True, False):
+        cs.append(dict(prop="star", cached=cached, n=3, init=star,
+                       ops=[["Read"], ["Listen", "observe"], ["Set", 2, "value", 7], ["Read"], ["Append", 1, "kids", 2], ["Read"],
+                            ["Set", 1, "value", 3], ["Read"], ["Set", 2, "value", 1], ["Read"], ["Pop", 1, "kids", 0], ["Read"],
+                            ["Read"]]))
     # a dependency that is an instance trait of the child: removed and added back (trait_added must re-hook it)
     for cached in (True, False):
         cs.append(dict(prop="dynchild", cached=cached, n=2, init=dup,
